@@ -9,6 +9,7 @@
                fixed, and `_required`) of every class in `T`, on the flags, and are both `Good`.
 -/
 import TypedpyModel.Sem.World
+set_option linter.unusedSimpArgs false
 namespace Typedpy.World
 
 /-! ### association lists -/
@@ -410,7 +411,7 @@ theorem resolveField_own {cfg : Config} {W} (hW : cfg.wrapperByName = true → N
 
 theorem wrapsOfFields_cons_mem {f : FieldSpec} {fs : List FieldSpec} {n : String} {t : TypeId}
     (h : f.kind = .wrap n t) : (n, t) ∈ wrapsOfFields (f :: fs) := by
-  simp [wrapsOfFields, List.filterMap_cons, h]
+  simp [wrapsOfFields, h]
 
 theorem wrapsOfFields_cons_sub {f : FieldSpec} {fs : List FieldSpec} {q : String × TypeId}
     (h : q ∈ wrapsOfFields fs) : q ∈ wrapsOfFields (f :: fs) := by
@@ -443,16 +444,23 @@ def defEntry (cfg : Config) (w : World) (c : ClassId) (src : ClassSrc) : Option 
     | none => none
     | some pe => if baseSigClash w.flags src pe then none else some (elabClass cfg w src pe)
 
+/-- the world a class statement leaves when it does not create a class -/
+def failWorld (cfg : Config) (w : World) (c : ClassId) (src : ClassSrc) : World :=
+  match alookup c w.classes with
+  | some _ => w
+  | none =>
+    match lookupParent w.classes src.parent with
+    | none => w
+    | some _ => bodyW cfg w src
+
 def defWorld (cfg : Config) (w : World) (c : ClassId) (src : ClassSrc) (e : Entry) : World :=
-  { w with classes := (c, e) :: w.classes,
-           wrappers := (resolveFields cfg w.wrappers src.fields).1,
-           srCounter := w.srCounter + totalInlines src.fields }
+  { bodyW cfg w src with classes := (c, e) :: w.classes }
 
 theorem defineW_eq (cfg : Config) (w : World) (c : ClassId) (src : ClassSrc) :
     (defineW cfg w c src).1 = match defEntry cfg w c src with
-      | none => w
+      | none => failWorld cfg w c src
       | some e => defWorld cfg w c src e := by
-  unfold defineW defEntry
+  unfold defineW defEntry failWorld
   cases alookup c w.classes with
   | some _ => rfl
   | none =>
@@ -464,6 +472,41 @@ theorem defineW_eq (cfg : Config) (w : World) (c : ClassId) (src : ClassSrc) :
       by_cases hb : baseSigClash w.flags src pe = true
       · simp [hb]
       · simp [hb, defWorld]
+
+theorem failWorld_classes (cfg : Config) (w : World) (c : ClassId) (src : ClassSrc) :
+    (failWorld cfg w c src).classes = w.classes := by
+  unfold failWorld
+  cases alookup c w.classes with
+  | some _ => rfl
+  | none =>
+    simp only
+    cases lookupParent w.classes src.parent <;> rfl
+
+theorem failWorld_flags (cfg : Config) (w : World) (c : ClassId) (src : ClassSrc) :
+    (failWorld cfg w c src).flags = w.flags := by
+  unfold failWorld
+  cases alookup c w.classes with
+  | some _ => rfl
+  | none =>
+    simp only
+    cases lookupParent w.classes src.parent <;> rfl
+
+theorem good_bodyW {cfg : Config} {W} (hW : cfg.wrapperByName = true → NoClashW W) {w : World}
+    (g : Good cfg W w) (src : ClassSrc) (hsub : ∀ q ∈ wrapsOfFields src.fields, q ∈ W) :
+    Good cfg W (bodyW cfg w src) :=
+  ⟨(resolveFields_own hW src.fields w.wrappers g.reg hsub).2, g.mapper, g.simpl, g.ser⟩
+
+theorem good_failWorld {cfg : Config} {W} (hW : cfg.wrapperByName = true → NoClashW W) {w : World}
+    (g : Good cfg W w) (c : ClassId) (src : ClassSrc) (hsub : ∀ q ∈ wrapsOfFields src.fields, q ∈ W) :
+    Good cfg W (failWorld cfg w c src) := by
+  unfold failWorld
+  cases alookup c w.classes with
+  | some _ => exact g
+  | none =>
+    simp only
+    cases lookupParent w.classes src.parent with
+    | none => exact g
+    | some _ => exact good_bodyW hW g src hsub
 
 theorem defEntry_fresh {cfg : Config} {w : World} {c : ClassId} {src : ClassSrc} {e : Entry}
     (h : defEntry cfg w c src = some e) : alookup c w.classes = none ∧ e.serializer = none := by
@@ -485,15 +528,17 @@ theorem defEntry_fresh {cfg : Config} {w : World} {c : ClassId} {src : ClassSrc}
 theorem defineW_flags (cfg : Config) (w : World) (c : ClassId) (src : ClassSrc) :
     (defineW cfg w c src).1.flags = w.flags := by
   rw [defineW_eq]
-  cases defEntry cfg w c src <;> rfl
+  cases defEntry cfg w c src with
+  | none => exact failWorld_flags cfg w c src
+  | some e => rfl
 
 theorem lookS_define_other (cfg : Config) (w : World) (c : ClassId) (src : ClassSrc) {d : ClassId}
     (h : c ≠ d) : lookS (defineW cfg w c src).1 d = lookS w d := by
   rw [defineW_eq]
   cases defEntry cfg w c src with
-  | none => rfl
+  | none => simp only [lookS, failWorld_classes]
   | some e =>
-    unfold lookS defWorld
+    unfold lookS defWorld bodyW
     simp only
     rw [alookup_cons_ne _ _ h]
 
@@ -503,9 +548,9 @@ theorem lookS_define_self (cfg : Config) (w : World) (c : ClassId) (src : ClassS
       | some e => some e.stable := by
   rw [defineW_eq]
   cases defEntry cfg w c src with
-  | none => rfl
+  | none => simp only [lookS, failWorld_classes]
   | some e =>
-    unfold lookS defWorld
+    unfold lookS defWorld bodyW
     simp only
     rw [alookup_cons_eq]
     rfl
@@ -515,7 +560,7 @@ theorem good_define {cfg : Config} {W} (hW : cfg.wrapperByName = true → NoClas
     Good cfg W (defineW cfg w c src).1 := by
   rw [defineW_eq]
   cases hd : defEntry cfg w c src with
-  | none => exact g
+  | none => exact good_failWorld hW g c src hsub
   | some e =>
     obtain ⟨hfresh, hser⟩ := defEntry_fresh hd
     have hne : ∀ c0 e0, alookup c0 w.classes = some e0 → c ≠ c0 := by
